@@ -332,6 +332,21 @@ fn format_invalid_entries(entries: &[InvalidEntry]) -> Vec<String> {
         .collect()
 }
 
+/// Verification hooks: the TXT record parser without a DNS lookup in front of it.
+#[cfg(feature = "verif-hooks")]
+pub mod verif_hooks {
+    use sciparse::address::ip_addr::ScionIpAddr;
+
+    /// Parses one TXT record string the way [`super::ScionTxtDnsResolver`] does for every record
+    /// of a lookup. `None`: the record is not a SCION record (no `scion=v1;` prefix) and is
+    /// skipped; `Some(Err)`: it is reported as an invalid entry.
+    pub fn parse_txt_record(record: &str) -> Option<Result<Vec<ScionIpAddr>, String>> {
+        record
+            .strip_prefix(super::SCION_TXT_PREFIX)
+            .map(|payload| super::parse_txt_payload(payload).map_err(|e| e.to_string()))
+    }
+}
+
 #[cfg(test)]
 mod tests {
     use super::*;
